@@ -338,6 +338,14 @@ def gen_enum(rng, name) -> dict:
         vals = ded
     for i, v in enumerate(vals):
         members.append([f"M{i}", v])
+    if base in ("Enum", "StrEnum", "strmix") and len(members) >= 2 and rng.random() < 0.2:
+        # values that are also member *names* (of other members): a value is looked up as a value
+        k = len(members)
+        for i in range(k):
+            members[i][1] = f"M{(i + 1) % k}" if rng.random() < 0.7 else members[i][1]
+        if len({core.jdump(m[1]) for m in members}) < k:
+            for i in range(k):
+                members[i][1] = f"M{(i + 1) % k}"
     return {"d": "enum", "n": name, "base": base, "members": members}
 
 
@@ -517,13 +525,14 @@ def gen_world(rng, cfg: Cfg, *, force_recursive=False, nmods=None) -> tuple[dict
             mod["decls"].append(s)
             view.add(mname, s, "struct")
         bases = [d for d in mod["decls"] if d["d"] == "dataclass" and not d.get("base")]
-        if bases and rng.random() < 0.3:
+        if bases and rng.random() < 0.4:
             # single inheritance: a dataclass that adds defaulted fields to one declared earlier in the
             # module (the class body holds only its own fields; `fields` lists all of them, inherited first)
             b = rng.choice(bases)
             taken = {f["n"] for f in b["fields"]}
             own = []
-            for nm_ in [n_ for n_ in FIELD_NAMES + ["extra", "note"] if n_ not in taken][: rng.randint(1, 2)]:
+            # (every other subclass adds no field of its own: all its members are inherited)
+            for nm_ in [n_ for n_ in FIELD_NAMES + ["extra", "note"] if n_ not in taken][: rng.choice([0, 0, 1, 2])]:
                 tk = rng.choice(["int", "str", "bool", "optint"])
                 if tk == "optint":
                     own.append({"n": nm_, "t": {"k": "union", "sp": "optional", "a": [{"k": "int"}, {"k": "none"}]}, "default": None})
